@@ -424,6 +424,7 @@ class C17(Check):
         "no_warnings_via_config", "confirmed_replaced", "declined_kept",
         "disk_fault_fired", "same_process_second_save",
         "colliding_outputs_in_one_command", "target_is_symlink",
+        "target_is_relative_symlink_in_subdirectory",
         "target_appeared_during_command", "output_path_from_config",
         "target_is_empty_file", "history_as_ordinary_user",
         "target_is_write_protected",
@@ -1014,7 +1015,18 @@ class C17(Check):
                             f.write(blob)
                         if os.path.lexists(rel):
                             os.unlink(rel)
-                        os.symlink(os.path.join(sb.root, real), rel)
+                        link_text = os.path.join(sb.root, real)
+                        if prng.random() < 0.5:
+                            # a relative link: its text is resolved against the
+                            # link's own directory, not against the cwd
+                            # (seeded defect c17za)
+                            link_text = os.path.relpath(
+                                link_text, os.path.join(
+                                    sb.root, os.path.dirname(rel)))
+                            res.stats["probe.target_is_relative_symlink" + (
+                                "_in_subdirectory" if os.path.dirname(rel)
+                                else "")] += 1
+                        os.symlink(link_text, rel)
                         res.stats["probe.target_is_symlink"] += 1
                         continue
                     if os.path.islink(rel):
